@@ -457,8 +457,18 @@ impl Exp {
     /// an operator of the same level on the side the parser would not associate to
     /// (`a - (b - c)`, `a / (b * c)`).
     fn to_string_as_operand(&self, parent: BinOp, is_right: bool) -> String {
-        match self {
-            Exp::BinOp(op, _, _) => {
+        // the structural logic variants print with the corresponding infix operator
+        let own_operator = match self {
+            Exp::BinOp(op, _, _) => Some(*op),
+            Exp::And(_) => Some(BinOp::And),
+            Exp::Or(_) => Some(BinOp::Or),
+            Exp::Xor(_, _) => Some(BinOp::Xor),
+            Exp::Implies(_, _) => Some(BinOp::Implies),
+            Exp::Iff(_, _) => Some(BinOp::Iff),
+            _ => None,
+        };
+        match own_operator {
+            Some(op) => {
                 let same_level_regroups = if is_right {
                     parent.is_left_associative() || op.is_left_associative()
                 } else {
@@ -472,7 +482,7 @@ impl Exp {
                     self.to_string()
                 }
             }
-            _ => self.to_string(),
+            None => self.to_string(),
         }
     }
 }
